@@ -274,7 +274,7 @@ pub fn run_c04(tier: Tier) -> i32 {
         }
     }
     ck.rule = format!(
-        "v3 and v5 server: every sequence of up to {} requests over {{PUBLISH q1, PUBLISH q2, PUBREL, PINGREQ, SUBSCRIBE, UNSUBSCRIBE, (v5) AUTH}} with distinct packet ids (and, without back-pressure, over {{PUBLISH q0 - a request without a response packet -, PUBLISH q1, PINGREQ, SUBSCRIBE}}, and (v5) over {{PUBLISH q1, PINGREQ, a 40-filter SUBSCRIBE whose SUBACK exceeds the peer's 40-byte maximum packet size and cannot be encoded}}); publish handler and protocol service each immediately-ready or gated; arrivals one per read or corked into arbitrary groups; handler completions in every order (v5, small alphabet: also with handler errors mapped to negative acknowledgements); two variants with write back-pressure episodes (the peer stops / resumes reading at any quiescent point, 1 episode with an 8-byte or 2 episodes with a 4-byte high watermark of the write buffer, so that the dispatcher's back-pressure state is entered after two / one buffered responses); {} injection(s) while tasks are runnable (quick: full length without injection, one request fewer with one). Oracle after every step: handler-produced responses on the wire are a prefix of the request order; at the end of healthy runs they are exactly the request order",
+        "v3 and v5 server: every sequence of up to {} requests over {{PUBLISH q1, PUBLISH q2, PUBREL, PINGREQ, SUBSCRIBE, UNSUBSCRIBE, (v5) AUTH}} with distinct packet ids (and, without back-pressure, over {{PUBLISH q0 - a request without a response packet -, PUBLISH q1, PINGREQ, SUBSCRIBE}}, and (v5) over {{PUBLISH q1, PINGREQ, a 40-filter SUBSCRIBE whose SUBACK exceeds the peer's 40-byte maximum packet size and cannot be encoded}}); publish handler and protocol service each immediately-ready or gated; arrivals one per read or corked into arbitrary groups; handler completions in every order (v5, small alphabet: also with handler errors mapped to negative acknowledgements); one variant (small alphabet) in which the application's publish service is not ready for a while (Hold / Unhold at any quiescent point: the dispatcher's reading pause); two variants with write back-pressure episodes (the peer stops / resumes reading at any quiescent point, 1 episode with an 8-byte or 2 episodes with a 4-byte high watermark of the write buffer, so that the dispatcher's back-pressure state is entered after two / one buffered responses); {} injection(s) while tasks are runnable (quick: full length without injection, one request fewer with one). Oracle after every step: handler-produced responses on the wire are a prefix of the request order; at the end of healthy runs they are exactly the request order",
         if tier == Tier::Quick { 4 } else { 5 },
         ecfg.max_dev
     );
